@@ -238,7 +238,9 @@ def _learner(pv, cfg, ctx, sched):
     ctx.check(As.shape == (nN, pv.nA) and Ns.shape == (nN, pv.nA, pv.nO, nN) and ini.shape == (nN,), 'valid-controller',
               lambda: f"controller shapes {As.shape} {Ns.shape} {ini.shape}")
     for name, M in (('action', As), ('node-transition', Ns), ('initial-node', ini)):
-        ctx.check(np.isfinite(M).all() and (M >= -1e-9).all() and np.allclose(M.sum(-1), 1, atol=1e-8), 'valid-controller',
+        # tolerance: the primal feasibility tolerance of the LP solver behind bounded policy iteration (HiGHS, 1e-7);
+        # an entry of -8e-9 is solver noise, an entry of -1e-3 is not a probability
+        ctx.check(np.isfinite(M).all() and (M >= -1e-7).all() and np.allclose(M.sum(-1), 1, atol=1e-6), 'valid-controller',
                   lambda: f"{name} strategy is not row-stochastic: min {M.min()!r}, row sums {M.sum(-1).tolist()}")
     As_, Ns_, ini_ = np.clip(As, 0, None), np.clip(Ns, 0, None), np.clip(ini, 0, None)
     which = _check_evaluator(ctx, pv, pomdp, As_, Ns_, ini_, 'returned controller')
